@@ -53,11 +53,16 @@ class InterestTreeNode:
             PendingIntEntry(future, param.lifetime,
                             param.can_be_prefix, param.must_be_fresh, implicit_sha256))
 
-    def nack_interest(self, nack_reason: int) -> bool:
+    def nack_interest(self, nack_reason: int, implicit_sha256: BinaryStr = b'') -> bool:
+        # A Nack only concerns the Interests it names, including the implicit digest component
+        remaining_entries = []
         for entry in self.pending_list:
-            if not entry.future.done():
+            if entry.implicit_sha256 != implicit_sha256:
+                remaining_entries.append(entry)
+            elif not entry.future.done():
                 entry.future.set_exception(InterestNack(nack_reason))
-        return True
+        self.pending_list = remaining_entries
+        return not remaining_entries
 
     def satisfy(self, data: DataTuple, is_prefix: bool) -> bool:
         unsatisfied_entries = []
